@@ -384,6 +384,7 @@ def run(chk: Check) -> int:
     if instr_broken:
         chk.broke("correspondence", "run-time instrumentation of IntegratorLearner no longer fits the code "
                   f"({len(instr_broken)} cases)", instr_broken[:3])
+        instr_broken.clear()
     # long runs of a divergent integrand (like the suite's fdiv) with few tasks reach DivergentIntegralError
     for k in range(3 if chk.quick else 24):
         rng = chk.rng("div", k)
@@ -448,9 +449,12 @@ def run(chk: Check) -> int:
         elif rec.evict_queued:
             cand.append((rec.evict_queued[0], k, cfg, I.concrete_ops(rec)))
     # correspondence on the runs that evict a queued interval earliest (prefix up to 40 operations after the eviction)
-    for first, k, cfg, ops in sorted(cand, key=lambda c: c[:2])[:(4 if chk.quick else 20)]:
-        rec, orc = drive(cfg, ops=ops[:first + 40])
-        add(cfg, rec, orc, f"seed{chk.seed}/stress{k}[:{first + 40}]", "trickle")
+    cand = sorted(cand, key=lambda c: c[:2])
+    if chk.quick:
+        cand = [c for c in cand if c[0] <= 420][:3] or cand[:1]
+    for first, k, cfg, ops in cand[:20]:
+        rec, orc = drive(cfg, ops=ops[:first + 30])
+        add(cfg, rec, orc, f"seed{chk.seed}/stress{k}[:{first + 30}]", "trickle")
     if instr_broken:
         chk.broke("correspondence", "run-time instrumentation of IntegratorLearner no longer fits the code "
                   f"({len(instr_broken)} cases)", instr_broken[:3])
